@@ -1041,6 +1041,17 @@ def fixed_bsi_episodes(g):
             g.emit("bdump %s" % t)
             g.emit("bset %s 8 1" % t)
             g.emit("bdump %s" % t)
+        # columns spread over many 2^32 blocks (the existence bitmap and the slices have many buckets), streamed
+        if w == "64":
+            m = g.fresh("fx")
+            g.emit("bnew %s 64" % m)
+            for nb in (66, 130):
+                for i in range(nb):
+                    g.emit("bset %s %d %d" % (m, (i * 3 + 1) * 4294967296 + 7 * i, (i % 4) - 2))
+                t = g.fresh("ft")
+                g.emit("bstream %s %s" % (t, m))
+                g.emit("bdump %s" % t)
+                g.emit("bequals %s %s" % (t, m))
         g.count("bsi:fixed-episodes")
 
 
